@@ -60,6 +60,7 @@ VALUED = [
     ("report_deprecated_as_note", ["--enable-error-code", "deprecated", "--report-deprecated-as-note"]),
     ("special-opts:strict", ["--strict"]),
     ("custom_typing_module", ["--custom-typing-module", "typing"]),
+    ("hide_error_codes", ["--show-error-code-links", "--hide-error-codes"]),
 ]
 # the base valuation some options need to be observable (B = A + flag)
 CONTEXT = {
@@ -67,6 +68,7 @@ CONTEXT = {
     "deprecated_calls_exclude": ["--enable-error-code", "deprecated"],
     "report_deprecated_as_note": ["--enable-error-code", "deprecated"],
     "show_error_code_links": [],
+    "hide_error_codes": ["--show-error-code-links"],
 }
 
 
@@ -94,6 +96,22 @@ def option_cases() -> list[dict]:
     return cases
 
 
+def with_contexts(cases: list[dict], rng, quick: bool) -> list[dict]:
+    """The same toggles in two more surroundings that change how the key is computed: (1) a config file with
+    per-module sections for the witness modules (the per-module clone of the options is what gets compared),
+    (2) --debug-cache (the snapshot is the full option dict instead of a digest)."""
+    out = []
+    for i, c in enumerate(cases):
+        out.append(c)
+        variants = [dict(c, base=c["base"] + ["--config-file", "permodule.ini"], ctx="per-module-sections"),
+                    dict(c, base=c["base"] + ["--debug-cache"], ctx="debug-cache")]
+        if quick:
+            out.append(variants[(i + rng.randint(0, 1)) % 2])
+        else:
+            out += variants
+    return out
+
+
 def changed_options(c: dict) -> list[str]:
     """Names of the options whose value differs between the two valuations (by parsing both command lines
     with the real option parser and comparing every attribute of the resulting Options objects)."""
@@ -101,7 +119,8 @@ def changed_options(c: dict) -> list[str]:
     import io
     import mypy.main as mm
     snaps = []
-    for args in (c["base"], c["base"] + c["flags"]):
+    plain = [a for a in c["base"] if a not in ("--config-file", "permodule.ini")]
+    for args in (plain, plain + c["flags"]):
         with contextlib.redirect_stderr(io.StringIO()), contextlib.redirect_stdout(io.StringIO()):
             try:
                 _, opts = mm.process_options(list(args) + ["main.py"], require_targets=False)
@@ -123,6 +142,8 @@ def sweep(ctx: Ctx, cases: list[dict]) -> list[dict]:
     root = os.path.join(base, "src")
     os.makedirs(base, exist_ok=True)
     shutil.copytree(WITNESS, root)
+    with open(os.path.join(root, "permodule.ini"), "w") as f:
+        f.write("[mypy]\n\n[mypy-main]\nignore_errors = False\n\n[mypy-pkg.*]\nignore_errors = False\n")
     bases: dict[tuple, dict] = {}
 
     def base_run(bargs: list[str]) -> dict:
@@ -182,6 +203,9 @@ def main(ctx: Ctx) -> None:
         nonkey = [c for c in cases if c["dest"] not in OPTIONS_AFFECTING_CACHE or c["dest"] in bad_rows]
         key = [c for c in cases if c not in nonkey]
         cases = nonkey + ctx.rng.sample(key, min(10, len(key)))
+    cases = with_contexts(cases, ctx.rng, ctx.quick())
+    for c in cases:
+        ctx.dist("surroundings", c.get("ctx", "plain"))
     res = sweep(ctx, cases)
     # model predictions
     lines = [",".join(changed_options(c)) or "-" for c in cases]
@@ -189,7 +213,7 @@ def main(ctx: Ctx) -> None:
     stale_opts, pred_breaks = [], []
     for r, pred in zip(res, preds):
         c = r["case"]
-        name = c["dest"] + ":" + " ".join(c["flags"])
+        name = c["dest"] + ":" + " ".join(c["flags"]) + ("@" + c["ctx"] if c.get("ctx") else "")
         for direction, diff, rech in (("on", r["on_diff"], r["on_rechecked"]), ("off", r["off_diff"], r["off_rechecked"])):
             ctx.case((name, direction), nontrivial=r["affects"])
             ctx.count("traces_validated_against_impl")
@@ -205,9 +229,9 @@ def main(ctx: Ctx) -> None:
     reported = set()
     for c, direction, diff in stale_opts:
         ctx.count("disagreements_checked")
-        if c["dest"] in reported:
+        if (c["dest"], c.get("ctx")) in reported:
             continue
-        reported.add(c["dest"])
+        reported.add((c["dest"], c.get("ctx")))
         ctx.report({"class": "option-change-yields-stale-result", "option": c["dest"]},
                    f"warm run after toggling {' '.join(c['flags'])} ({direction}) differs from a cold run with the new options: {diff[:2]}",
                    {"witness": "harness/c09/witness", "targets": TARGETS, "base_args": c["base"], "toggle": c["flags"], "direction": direction, "diff": diff})
